@@ -185,6 +185,16 @@ def classify(js, stdout, units):
                     else:
                         entry["undetermined"].append(f"{name} [{status}] {cat}")
                     continue
+                if desc.startswith("OBL-UNREACHABLE:"):
+                    # the obligation IS unreachability of this program point (e.g. a fallback path)
+                    name = desc[len("OBL-UNREACHABLE:"):]
+                    if status in ("Unreachable", "Success"):
+                        entry["obligations_ok"].append(name)
+                    elif status == "Failure":
+                        entry["obligations_failed"].append(name)
+                    else:
+                        entry["undetermined"].append(f"{name} [{status}]")
+                    continue
                 if desc.startswith("OBL:"):
                     name = desc[4:]
                     if status == "Success":
